@@ -6,7 +6,7 @@ HEAD = '''
 pub mod basic_option {
 use super::*;
 broadcast use auto::psc_auto;
-//@module basic_option props=C01,C02,C03,C07,C08,C11,C14
+//@module basic_option props=C01,C02,C03,C07,C08,C11,C12,C14
 impl<T: Encode> Encode for Option<T> {
     open spec fn spec_enc(&self) -> Seq<u8> { match self { Some(t) => seq![1u8] + t.spec_enc(), None => seq![0u8] } }
     open spec fn enc_ok(&self) -> bool { match self { Some(t) => t.enc_ok(), None => true } }
@@ -25,6 +25,7 @@ impl<T: Decode> Decode for Option<T> {
     }
     open spec fn dec_bytes(v: &Self) -> Seq<u8> { match v { None => seq![0u8], Some(t) => seq![1u8] + T::dec_bytes(t) } }
     open spec fn need_depth(b: Seq<u8>) -> nat { if b.len() > 0 && b[0] == 1 { T::need_depth(b.skip(1)) } else { 0 } }
+    open spec fn need_mem(b: Seq<u8>) -> Option<nat> { if b.len() > 0 && b[0] == 1 { T::need_mem(b.skip(1)) } else { None } }
     proof fn law_bound(b: Seq<u8>) { if b.len() > 0 && b[0] == 1 { T::law_bound(b.skip(1)); } }
     //@fn option.decode :: codec | impl<T:Decode>Decode for Option<T> | decode
     //@ at before `match input.read_byte()`
@@ -35,7 +36,7 @@ impl<T: Decode> Decode for Option<T> {
 pub mod basic_result {
 use super::*;
 broadcast use auto::psc_auto;
-//@module basic_result props=C01,C02,C03,C07,C08,C11,C14
+//@module basic_result props=C01,C02,C03,C07,C08,C11,C12,C14
 impl<T: Encode, E: Encode> Encode for Result<T, E> {
     open spec fn spec_enc(&self) -> Seq<u8> { match self { Ok(t) => seq![0u8] + t.spec_enc(), Err(e) => seq![1u8] + e.spec_enc() } }
     open spec fn enc_ok(&self) -> bool { match self { Ok(t) => t.enc_ok(), Err(e) => e.enc_ok() } }
@@ -56,6 +57,9 @@ impl<T: Decode, E: Decode> Decode for Result<T, E> {
     open spec fn need_depth(b: Seq<u8>) -> nat {
         if b.len() > 0 && b[0] == 0 { T::need_depth(b.skip(1)) } else if b.len() > 0 && b[0] == 1 { E::need_depth(b.skip(1)) } else { 0 }
     }
+    open spec fn need_mem(b: Seq<u8>) -> Option<nat> {
+        if b.len() > 0 && b[0] == 0 { T::need_mem(b.skip(1)) } else if b.len() > 0 && b[0] == 1 { E::need_mem(b.skip(1)) } else { None }
+    }
     proof fn law_bound(b: Seq<u8>) { if b.len() > 0 && b[0] == 0 { T::law_bound(b.skip(1)); } if b.len() > 0 && b[0] == 1 { E::law_bound(b.skip(1)); } }
     //@fn result.decode :: codec | impl<T:Decode,E:Decode>Decode for Result<T,E> | decode
     //@ at before `match input.read_byte()`
@@ -66,7 +70,7 @@ impl<T: Decode, E: Decode> Decode for Result<T, E> {
 pub mod basic_optionbool {
 use super::*;
 broadcast use auto::psc_auto;
-//@module basic_optionbool props=C01,C02,C03,C07,C08,C14
+//@module basic_optionbool props=C01,C02,C03,C07,C08,C11,C12,C14
 //@item codec | struct | OptionBool
 impl Encode for OptionBool {
     open spec fn spec_enc(&self) -> Seq<u8> { match self.0 { None => seq![0u8], Some(true) => seq![1u8], Some(false) => seq![2u8] } }
@@ -79,6 +83,7 @@ impl Decode for OptionBool {
     open spec fn accepts(b: Seq<u8>) -> Option<nat> { if b.len() >= 1 && b[0] <= 2 { Some(1nat) } else { None } }
     open spec fn dec_bytes(v: &Self) -> Seq<u8> { match v.0 { None => seq![0u8], Some(true) => seq![1u8], Some(false) => seq![2u8] } }
     open spec fn need_depth(b: Seq<u8>) -> nat { 0 }
+    open spec fn need_mem(b: Seq<u8>) -> Option<nat> { None }
     proof fn law_bound(b: Seq<u8>) {}
     //@fn optionbool.decode :: codec | impl Decode for OptionBool | decode
     //@ at before `match input.read_byte()`
@@ -89,7 +94,7 @@ impl Decode for OptionBool {
 pub mod basic_unit {
 use super::*;
 broadcast use auto::psc_auto;
-//@module basic_unit props=C01,C02,C03,C07,C08,C14
+//@module basic_unit props=C01,C02,C03,C07,C08,C11,C12,C14
 impl Encode for () {
     open spec fn spec_enc(&self) -> Seq<u8> { Seq::<u8>::empty() }
     open spec fn enc_ok(&self) -> bool { true }
@@ -103,6 +108,7 @@ impl Decode for () {
     open spec fn accepts(b: Seq<u8>) -> Option<nat> { Some(0nat) }
     open spec fn dec_bytes(v: &Self) -> Seq<u8> { Seq::<u8>::empty() }
     open spec fn need_depth(b: Seq<u8>) -> nat { 0 }
+    open spec fn need_mem(b: Seq<u8>) -> Option<nat> { None }
     proof fn law_bound(b: Seq<u8>) {}
     //@fn unit.decode :: codec | impl Decode for () | decode
     //@ at start
@@ -119,6 +125,7 @@ impl<T> Decode for PhantomData<T> {
     open spec fn accepts(b: Seq<u8>) -> Option<nat> { Some(0nat) }
     open spec fn dec_bytes(v: &Self) -> Seq<u8> { Seq::<u8>::empty() }
     open spec fn need_depth(b: Seq<u8>) -> nat { 0 }
+    open spec fn need_mem(b: Seq<u8>) -> Option<nat> { None }
     proof fn law_bound(b: Seq<u8>) {}
     //@fn phantom.decode :: codec | impl<T>Decode for PhantomData<T> | decode
     //@ at start
@@ -131,7 +138,7 @@ NZ = '''
 pub mod nonzero_$T {
 use super::*;
 broadcast use auto::psc_auto;
-//@module nonzero_$T props=C01,C02,C03,C07,C08,C14
+//@module nonzero_$T props=C01,C02,C03,C07,C08,C11,C12,C14
 impl Encode for $NZ {
     open spec fn spec_enc(&self) -> Seq<u8> { le($VAL(self.get()), $N) }
     open spec fn enc_ok(&self) -> bool { true }
@@ -145,6 +152,7 @@ impl Decode for $NZ {
     open spec fn accepts(b: Seq<u8>) -> Option<nat> { if b.len() >= $N && b.take($N) != le(0, $N) { Some($Nnat) } else { None } }
     open spec fn dec_bytes(v: &Self) -> Seq<u8> { le($VAL(v.get()), $N) }
     open spec fn need_depth(b: Seq<u8>) -> nat { 0 }
+    open spec fn need_mem(b: Seq<u8>) -> Option<nat> { None }
     proof fn law_bound(b: Seq<u8>) {}
     //@fn nonzero.$T.decode :: codec | impl Decode for $NZ | decode
 $SUBNZ    //@ at start
@@ -202,6 +210,13 @@ def tuple_template(k):
             return cur
         nxt = nd(i + 1, (off + ' + n%d' % i) if off != '0nat' else 'n%d' % i)
         return 'match %s::accepts(%s) { None => %s, Some(n%d) => max_nat(%s, %s) }' % (L[i], sk(off), cur, i, cur, nxt)
+    def nm(i, off):
+        cur = '%s::need_mem(%s)' % (L[i], sk(off))
+        if i == k - 1:
+            return cur
+        nxt = nm(i + 1, (off + ' + n%d' % i) if off != '0nat' else 'n%d' % i)
+        return 'match %s::accepts(%s) { None => %s, Some(n%d) => mem_add(%s, %s) }' % (L[i], sk(off), cur, i, cur, nxt)
+
     def lw(i, off):
         if i == k:
             return ''
@@ -209,7 +224,7 @@ def tuple_template(k):
     law = lw(0, '0nat')
     mod = 'tuple_%d' % k
     out = ['pub mod %s {' % mod, 'use super::*;', 'broadcast use auto::psc_min;',
-           '//@module %s props=C01,C02,C03,C07,C08,C11,C14' % mod]
+           '//@module %s props=C01,C02,C03,C07,C08,C11,C12,C14' % mod]
     if k > 1:
         es = ['e%d' % i for i in range(k)]
         out += ['pub mod lem { use vstd::prelude::*;',
@@ -234,6 +249,7 @@ def tuple_template(k):
             '    open spec fn accepts(b: Seq<u8>) -> Option<nat> { %s }' % acc(0, '0nat'),
             '    open spec fn dec_bytes(v: &Self) -> Seq<u8> { %s }' % dec_spec,
             '    open spec fn need_depth(b: Seq<u8>) -> nat { %s }' % nd(0, '0nat'),
+            '    open spec fn need_mem(b: Seq<u8>) -> Option<nat> { %s }' % nm(0, '0nat'),
             '    proof fn law_bound(b: Seq<u8>) { %s }' % law,
             '    //@fn tuple%d.decode :: codec::inner_tuple_impl | %s | decode' % (k, dec_hdr)]
     if k > 1:
